@@ -44,7 +44,11 @@ func genC10(t *rapid.T) C10Case {
 		switch op {
 		case "block":
 			stack = append(stack, f.Clone())
-			b := genBlockSalt(t, f, lim, true, branch)
+			g := f.Clone()
+			b := genBlock(t, g, lim, true)
+			b.Salt = branch
+			genReuse(t, f, &b)
+			applyToModel(f, b)
 			c.Steps = append(c.Steps, C10Step{Op: "block", B: &b})
 		case "undo":
 			f = stack[len(stack)-1]
@@ -101,6 +105,9 @@ func checkLookups(in *Inst, f *model.Forest, tracked []int, others []Hash, res *
 		wantFound = append(wantFound, found)
 	}
 	for s, h := range f.Hashes {
+		if _, again := v.LeafPos[h]; f.Dead[s] && again {
+			continue // spent and re-created with the same hash: judged through its live slot
+		}
 		if f.Dead[s] {
 			add(h, 0, false)
 			res.count("probe:dead-leaf", 1)
@@ -263,7 +270,17 @@ func runC10(c C10Case) *Result {
 			v := f.View()
 			delH := f.HashesOf(b.Del)
 			proof := v.Proof(delH)
-			adds, addH := mkLeavesSalt(b.Salt, len(f.Hashes), b.Add, func(k int) bool { return inSet(b.Rem, k) })
+			if err := checkReuse(f, b); err != nil {
+				return res.failf("%v", err)
+			}
+			addH := blockAddHashes(f, b)
+			adds := make([]u.Leaf, len(addH))
+			for k, h := range addH {
+				adds[k] = u.Leaf{Hash: h, Remember: inSet(b.Rem, k)}
+			}
+			if len(b.Reuse) > 0 {
+				res.count("blocks-recreating-spent-leaves", 1)
+			}
 			stack = append(stack, frame{f.Clone(), b, delH, proof, cloneHashes(v.Roots)})
 			for _, in := range insts {
 				if err := in.Apply(adds, delH, proof); err != nil {
